@@ -238,7 +238,11 @@ pub fn run(rep: &mut Report, thorough: bool) {
                 scen.push((si, c.clone(), None, 1000, 4));
                 scen.push((si, c.clone(), None, 1000, 5));
                 // a client that closes right after its last write: FIN on the last data segment
-                scen.push((si, c, None, 1000, 6));
+                scen.push((si, c.clone(), None, 1000, 6));
+                // a small / zero advertised window on every segment (the window is not stream data
+                // and an answer is not paced by it)
+                scen.push((si, c.clone(), None, 1000, 7));
+                scen.push((si, c, None, 1000, 8));
             }
         }
     }
@@ -263,6 +267,10 @@ pub fn run(rep: &mut Report, thorough: bool) {
                         fr.resize(60, 0);
                     } else if *pad == 2 {
                         fr.extend_from_slice(&[0xff; 7]);
+                    } else if *pad == 7 || *pad == 8 {
+                        let w: u16 = if *pad == 7 { 16 } else { 0 };
+                        fr[34 + 14..34 + 16].copy_from_slice(&w.to_be_bytes());
+                        refresh_checksums(&mut fr);
                     } else if *pad >= 3 && *pad <= 5 {
                         // flow `f` is IPv4 without options: the TCP header starts at byte 34
                         let u: u16 = match *pad {
@@ -341,7 +349,7 @@ pub fn run(rep: &mut Report, thorough: bool) {
         &mut rep.sink,
     );
     rep.transitions += scen.len() as u64;
-    rep.stage("compositions", "streams x (every 1-cut [x zero-length insertion], every 2-cut of the selected streams, every 1-cut again in frames zero-padded to 60 bytes / followed by a 7-byte trailer / with a stale urgent-pointer field (stream length, 5) / with URG and pointer 3 / with FIN on the last segment, every 1-cut again with sequence numbers wrapping past 2^32 inside the request)", scen.len() as u64, t0);
+    rep.stage("compositions", "streams x (every 1-cut [x zero-length insertion], every 2-cut of the selected streams, every 1-cut again in frames zero-padded to 60 bytes / followed by a 7-byte trailer / with a stale urgent-pointer field (stream length, 5) / with URG and pointer 3 / with FIN on the last segment / with an advertised window of 16 and of 0, every 1-cut again with sequence numbers wrapping past 2^32 inside the request)", scen.len() as u64, t0);
     parser_bfs(rep, &cfg, &f, ack, &cookies, thorough);
 }
 
